@@ -78,3 +78,48 @@ Proof.
   intros H Hl i. destruct (nth_env_derives f t0 (combine v w) i H) as [_ D].
   rewrite nth_combine_snd in D; auto.
 Qed.
+
+(* ---- smoothness side conditions depend only on the point, not on the tangent ---- *)
+Lemma okD_fst env env' e : map fst env = map fst env' -> okD env e -> okD env' e.
+Proof.
+  intros E. induction e; simpl; auto; try tauto.
+  - intros (H1 & H2 & H3). repeat split; auto. rewrite evalD_fst in *. rewrite <- E. exact H3.
+  - intros (H1 & H2). split; auto. rewrite evalD_fst in *. rewrite <- E. exact H2.
+  - intros (H1 & H2 & H3 & H4). repeat split; auto; rewrite !evalD_fst in *; rewrite <- E; auto.
+Qed.
+Definition smooth_at (vals : list R) (op : list expr) : Prop := List.Forall (okD (cstD vals)) op.
+Lemma smooth_at_okD vals U op : length vals = length U -> smooth_at vals op -> List.Forall (okD (combine vals U)) op.
+Proof.
+  intros Hl Hs. unfold smooth_at in Hs. eapply Forall_impl; [|exact Hs].
+  intros e He. eapply okD_fst; [|exact He]. rewrite map_fst_cstD, map_fst_combine; auto.
+Qed.
+Lemma smooth_poly vals op : forallb poly op = true -> smooth_at vals op.
+Proof. intros H. apply poly_all; auto. Qed.
+Lemma length_dir n off u : (off + length u <= n)%nat -> length (dir n off u) = n.
+Proof. intros H. unfold dir, zeros. rewrite !app_length, !repeat_length. lia. Qed.
+
+(* the two common special cases, stated without the empty block *)
+Lemma chain_stage_last f t0 (A v w : list R) op J n off d :
+  env_derives f t0 (combine v w) -> length v = d -> length w = d -> length A = off -> n = (off + d)%nat ->
+  tangent_ok op J n off d ->
+  smooth_at (A ++ v) op ->
+  env_derives (map (fun e t => evalR (envR (cst A ++ f) t) e) op) t0
+              (combine (evl (A ++ v) op) (matvec (evm (A ++ v) J) w)).
+Proof.
+  intros Hf Hv Hw HA Hn Ht Hs.
+  pose proof (chain_stage f t0 A [] v w op J n off d Hf Hv Hw HA ltac:(simpl; lia) Ht) as H.
+  rewrite !app_nil_r in H. apply H. apply smooth_at_okD; auto.
+  rewrite length_dir; rewrite ?app_length; lia.
+Qed.
+Lemma chain_stage_first f t0 (B v w : list R) op J n d :
+  env_derives f t0 (combine v w) -> length v = d -> length w = d -> n = (d + length B)%nat ->
+  tangent_ok op J n 0 d ->
+  smooth_at (v ++ B) op ->
+  env_derives (map (fun e t => evalR (envR (f ++ cst B) t) e) op) t0
+              (combine (evl (v ++ B) op) (matvec (evm (v ++ B) J) w)).
+Proof.
+  intros Hf Hv Hw Hn Ht Hs.
+  pose proof (chain_stage f t0 [] B v w op J n 0 d Hf Hv Hw eq_refl ltac:(simpl; lia) Ht) as H.
+  cbn [app] in H. apply H. apply smooth_at_okD; auto.
+  rewrite length_dir; rewrite ?app_length; lia.
+Qed.
